@@ -149,3 +149,17 @@ PROPS["C14"] = dict(race="always", shards=4, timeout=1800,
     assumptions=["the application configures the server (handlers, authenticators, TLS files, tracer) before Start and calls Start/Stop/Restart from one thread",
                  "fields other than Config.params, ConnManager.m, Conn.isClosed and the listener fields are written only before the goroutine that reads them is started, or belong to one connection goroutine"],
 )
+
+PROPS["C16"] = dict(post="linhist", timeout=1800,
+    rule="concurrent histories recorded against the real connection loops (hook H1, one goroutine per connection over net.Pipe): 2..8 clients, 6..14 operations in total "
+         "over 1..3 keys, drawn from GET/SET/SETNX/GETSET/INCR/DECRBY/APPEND/MSETNX/DEL in 12 kind mixes (counter-only, SETNX races, MSETNX vs DEL, mixed), "
+         "half against the bundled example store, half against a reference handler whose primitives are atomic with scheduling points (Gosched / 20-220us sleeps, seeded) "
+         "before and after every primitive so that composed commands interleave unless something serialises them; invocation/response order from one atomic clock; "
+         "each history is decided by the Lean checker (proved sound and complete) against the sequential specification = the framework model on the reference store, "
+         "and independently by a Go search with its own specification; non-trivial = every history; distinct = distinct case line (seed)",
+    trusted_base=[KERNEL, TIE, HOOK,
+                  "sync.Mutex: critical sections of the dispatch mutex are totally ordered and each lies between the request's arrival and its reply (the instants `ex` of AtomicRun)",
+                  "the recorded invocation/response times come from one atomic counter read before the request is written and after the reply is read",
+                  "goroutine scheduling is not controlled: which interleavings a run exercises is up to the Go scheduler and the seeded scheduling points"],
+    assumptions=["keys hold strings; no expiry; handlers do not block on other connections"],
+)
